@@ -228,10 +228,13 @@ def oracle(case, out):
                 if va != vb:
                     diff = [q for q in va if va[q] != vb[q]]
                     pat = "trajectory-depends-on-map-order:" + r["map"]
-                    if infs and emon and "msg" in diff and "limits" in (a["msg"], b["msg"]):
+                    # python_map + evaluation monitor: DE2's counter is the monitor's length; a supplied map: a Null monitor is fed and the counter
+                    # adds the non-infinite energies (F13).  The two counts differ when energies are infinite or the monitor was installed after
+                    # some evaluations; so does everything that follows from reaching the evaluation limit at another moment
+                    if emon and (set(diff) <= {"evals", "msg"} or "limits" in (a["msg"], b["msg"])):
                         # F13 seen through the evaluation limit: python_map + evaluation monitor counts every call (len(monitor)), a supplied
                         # map feeds a Null monitor and the counter skips infinite energies: only the evaluation-limit stop differs
-                        pat = "evaluation-limit-stop-differs-builtin-vs-supplied-map:de2-skips-infinite-energies-without-evaluation-monitor"
+                        pat = "counter-differs-builtin-vs-supplied-map:de2-counter-is-monitor-length-or-skips-infinite-energies"
                     f.append(SC.fail("schedule_irrelevant", "DifferentialEvolutionSolver2", pat, dict(op=j, fields=diff)))
                     break
         # the supplied maps among themselves: the same work items in another order, interleaving or thread: everything must agree (counters too)
